@@ -23,7 +23,7 @@ RULE = (
     "America/Los_Angeles, UTC, Europe/Berlin, Asia/Kolkata, Australia/Lord_Howe, stays of 0 s, "
     "below one period, exactly k periods +-1 s, hours, days, instants aimed at period boundaries "
     "and DST changes - pushed through the public get_evs / generate_events with the DataClient "
-    "stubbed, for period in {1,5,10,15,60}, voltages, max powers, max_len in {None,1,12,100}, "
+    "stubbed, for period in {1,5,7,10,15,45,60} (stochastic samples also 2.5 and 8), voltages, max powers, max_len in {None,1,12,100}, "
     "force_feasible, battery_params in {None, ideal+kwargs, two-stage with a RECORDING capacity "
     "function around batt_cap_fn}. Oracle in integer arithmetic: arrival = floor(t_conn/(60 p)) - "
     "floor(t_start/(60 p)), same for departure, then the max_len cap; departure >= arrival and "
@@ -261,7 +261,7 @@ DST_INSTANTS = [1552212000, 1572771600, 1553994000, 1572138000, 1570289400, 1554
 
 @st.composite
 def doc_cases(draw):
-    period = draw(st.sampled_from([1, 5, 10, 15, 60]))
+    period = draw(st.sampled_from([1, 5, 10, 15, 60, 7, 45]))
     P = 60 * period
     zone = draw(st.sampled_from(ZONES))
     base = draw(st.one_of(st.integers(1_400_000_000, 1_700_000_000), st.sampled_from(DST_INSTANTS).map(lambda x: x - 7200)))
@@ -424,7 +424,7 @@ def prop_stochastic(spec, rec):
 
 @st.composite
 def stochastic_cases(draw):
-    period = draw(st.sampled_from([1, 5, 10, 15, 60]))
+    period = draw(st.sampled_from([1, 5, 10, 15, 60, 7, 8, 45, 2.5]))
     fit = draw(st.integers(0, 3)) == 0
     ndays = draw(st.integers(1, 3))
     days = []
